@@ -110,12 +110,13 @@ class PyEcoreValue(object):
             return
         if value is not None:
             resource = value.eResource
-            if resource and value in resource.contents:
+            if resource and any(x is value for x in resource.contents):
                 resource.remove(value)
             prev_container = value._container
             prev_feature = value._containment_feature
-            if (prev_container != self.owner
-                    or prev_feature != self.feature) \
+            # (by identity: an owner may compare equal to another one)
+            if (prev_container is not self.owner
+                    or prev_feature is not self.feature) \
                     and isinstance(prev_container, EObject):
                 prev_container.__dict__[prev_feature._name] \
                               .remove_or_unset(value)
